@@ -5,7 +5,11 @@ import MtblModel.Generated.Constants
 -/
 namespace Mtbl
 
-inductive FsNode | regular (content : List UInt8) | danglingSymlink
+inductive FsNode
+  | regular (content : List UInt8)
+  | danglingSymlink
+  | symlinkTo (content : List UInt8)   -- symbolic link to an existing regular file with this content
+  | special                            -- directory, FIFO, device node, or a symbolic link to one
 deriving Repr, DecidableEq, Inhabited
 
 structure FsWorld where
@@ -26,6 +30,10 @@ def posixOpenW (w : FsWorld) (path : String) (flags : List String) : Bool × FsW
       | .regular _ => if flags.contains "O_TRUNC"
                       then (true, { nodes := w.nodes.map fun (p, n) => if p == path then (p, .regular []) else (p, n) })
                       else (true, w)
+      | .symlinkTo _ => if flags.contains "O_TRUNC"
+                        then (true, { nodes := w.nodes.map fun (p, n) => if p == path then (p, .symlinkTo []) else (p, n) })
+                        else (true, w)
+      | .special => (true, w)
       | .danglingSymlink => if flags.contains "O_CREAT" then (true, { nodes := w.nodes ++ [(path ++ "->target", .regular [])] }) else (false, w)
   | none => if flags.contains "O_CREAT" then (true, { nodes := w.nodes ++ [(path, .regular [])] }) else (false, w)
 
